@@ -41,6 +41,10 @@ def fit_cases(tier):
     for peek, ep, nt, bs, val, ev in itertools.product(("before", "callback"), (1, 2, 3), (1, 2, 3), (1, 2), (None, 1, 2), (None, "multi-class")):
         for ct, cv in (((True, True), (True, False), ("child", True)) if peek == "callback" else ((False, False), (True, True))):
             out.append(dict(FIT_DEFAULT, epochs=ep, n_train=nt, bs=bs, val=val, ev=ev, cb_train=ct, cb_val=cv, peek=peek))
+    # histories of the model: a BatchNorm layer whose track_running_stats flag is switched off after construction (buffers stay: eval must use and keep them); a layer
+    # frozen while the optimizer was built and unfrozen by the epoch callback (its gradients must be cleared before each update like everybody else's)
+    for hist, ep, nt, bs, val, ev in itertools.product(("bn_untracked_later", "unfreeze_in_callback"), (1, 2, 3), (1, 2, 3), (2, 3), (None, 1, 2), (None, "multi-class")):
+        out.append(dict(FIT_DEFAULT, epochs=ep, n_train=nt, bs=bs, val=val, ev=ev, cb_train=(hist == "unfreeze_in_callback"), cb_val=False, hist=hist))
     return out
 
 
